@@ -46,9 +46,14 @@ def check(run):
         raise RuntimeError("canary verified: engine vacuous on combine_DL R1")
     if D.canary(run, "fitting/combine_DL.py", "main", C.r3_contract) is False:
         raise RuntimeError("canary verified: engine vacuous on combine_DL R3")
+    # the regions above speak about the joined tables: rank 0 joins the per-rank files (numbers and names) in rank order with cat $(find | sort -V) and removes them (shared with C14)
+    sfailed = D.structural_generic(run, ["fitting/combine_DL.py"], (lambda fnode: c_stages.concat_obligations(fnode) if fnode.name == "main" else []),
+                                   "contracts.c_stages.concat_obligations (AST)", "per-rank output files carry the rank; rank 0 joins them with cat $(find | sort -V) > out and removes them")
     from checks import _wrap
     found, B = _wrap.run_bounded(run, "checks.C06_bounded")
     _wrap.report_unproved(run, failed_all, found, "combine_DL.main")
+    if not found:
+        D.report_structural(run, sfailed, "join", "contracts/c_stages.py concat_obligations")
     run.assume("A-float", "A-ext (numpy idioms as modelled in pyvc/models.py)", "A-shell (concatenation of per-rank files)", "lemma library: counting facts of masks")
     run.trust("pyvc", "z3 5.1.0")
     return run.finish("proof", META["text"], CHECKER)
